@@ -248,7 +248,25 @@ def run_sim(coro_fn, net_factory, max_vtime=3600.0, seed=0):
     asyncio.set_event_loop(loop)
     try:
         with patched_time(loop):
-            return loop.run_until_complete(coro_fn(loop, net))
+            try:
+                return loop.run_until_complete(coro_fn(loop, net))
+            except SimDeadlock as e:
+                # diagnostics: where is every pending task waiting?
+                stacks = []
+                for t in asyncio.all_tasks(loop):
+                    if t.done():
+                        continue
+                    chain = []
+                    co = t.get_coro()
+                    while co is not None and len(chain) < 10:
+                        fr = getattr(co, "cr_frame", None) or getattr(co, "gi_frame", None)
+                        if fr is None:
+                            break
+                        chain.append(f"{fr.f_code.co_name}:{fr.f_lineno}")
+                        co = getattr(co, "cr_await", None) or getattr(co, "gi_yieldfrom", None)
+                    stacks.append(" -> ".join(chain))
+                e.stacks = sorted(stacks)
+                raise
     finally:
         try:
             # cancel leftovers quietly
